@@ -200,7 +200,10 @@ func TestC10(t *testing.T) {
 		kinds := []string{}
 		for j := 0; j < k; j++ {
 			var op sim.Op
-			switch r.Intn(6) {
+			switch r.Intn(7) {
+			case 6:
+				// the node resource check with repair on the workload's node, while the workload is being changed
+				op = sim.Op{Kind: "node-repair", Node: w.model.Live[target]}
 			case 0, 1:
 				op = sim.Op{Kind: "remove", IDs: []string{target}}
 			case 2:
@@ -293,6 +296,10 @@ func TestC10(t *testing.T) {
 					withSlots(rs, &op)
 					if plan != nil { // operations make about twice as many boundary calls with the plugin layer
 						plan.Index = 1 + rs.Intn(56)
+						if rs.Intn(3) == 0 { // aimed at the commit inside the resource manager: one plugin's usage write
+							plan.Match = "plugin." + []string{"cpumem", sim.SlotsName}[rs.Intn(2)] + ".SetNodeResourceUsage"
+							plan.Index = 1 + rs.Intn(2)
+						}
 					}
 				}
 				hc.Ops = append(hc.Ops, op)
@@ -553,6 +560,12 @@ func c11Scenario(r *rand.Rand, kind string) (*sim.Topology, []sim.Op, sim.Op) {
 		}
 		if r.Intn(2) == 0 {
 			op.Labels = map[string]string{"zone": "z"}
+		}
+		if r.Intn(3) == 0 { // a NUMA layout comes with the change (delta or absolute), possibly for a node that had none
+			op.NUMACPU, op.NUMAMem = []string{"0", "1"}, []string{"256M", "256M"}
+			if op.MemDelta == 0 {
+				op.MemDelta = 1 << 29
+			}
 		}
 	}
 	return topo, setup, op
